@@ -2,7 +2,7 @@
    are mapped to OCaml's; nat, N, positive, Z remain Coq's inductives.  No Extract Constant. *)
 Require Extraction.
 Require Import ExtrOcamlBasic.
-Require Import SV.Base.BT SV.Base.Res SV.Simp.Core SV.Layout.Ty SV.Layout.Value SV.Lang.Ast SV.Comp.Compile SV.Lang.Sem SV.Lang.WT SV.Jets.JetSem SV.Gen.JetTable SV.Jets.JetModel SV.Text.U256 SV.Text.Literal SV.Text.Span SV.Wit.Consistent SV.Text.TyPrint SV.Text.ValPrint SV.Text.ModPrint SV.Text.ValParse SV.Text.Peg SV.Gen.Grammar SV.Front.PTree SV.Front.Analyze SV.Gen.Aliases SV.Text.ProgPrint SV.Text.ProgLex.
+Require Import SV.Base.BT SV.Base.Res SV.Simp.Core SV.Layout.Ty SV.Layout.Value SV.Lang.Ast SV.Comp.Compile SV.Lang.Sem SV.Lang.WT SV.Jets.JetSem SV.Gen.JetTable SV.Jets.JetModel SV.Text.U256 SV.Text.Literal SV.Text.Span SV.Wit.Consistent SV.Text.TyPrint SV.Text.ValPrint SV.Text.ModPrint SV.Text.ValParse SV.Text.Peg SV.Gen.Grammar SV.Front.PTree SV.Front.Analyze SV.Gen.Aliases SV.Text.ProgPrint SV.Text.ProgLex SV.Wit.Prune.
 Extraction Language OCaml.
 Extraction "model.ml"
   struct_ty structural reconstruct type_of value_wf cast_ok ty_eqb sty_eqb sval_eqb vty
@@ -14,4 +14,5 @@ Extraction "model.ml"
   parse grammar
   analyze_program builtin_aliases
   print_program_machine print_program prog_wf parse_token_list tokens_program erase_program
-  parse_text prog_names_ok.
+  parse_text prog_names_ok
+  SV.Wit.Prune.prune prune_value_bytes shrinks.
